@@ -42,6 +42,7 @@ def dispatch (line : String) : String :=
   | "c04" :: rest => Drive.Sim.handle "c04" rest
   | "c01w" :: rest => Drive.Sim.handle "c04" rest
   | "c12r" :: rest => Drive.C11.handleC12 rest
+  | "sim" :: rest => Drive.Sim.handle "c04" rest
   | "c12w" :: rest => Drive.Sim.handle "c04" rest
   | "c20" :: rest => Drive.Sim.handle "c20" rest
   | "c09" :: rest => Drive.Sim.handle "c09" rest
